@@ -82,7 +82,7 @@ func (s *ssut) build(keys []int, ord order, useNew bool) bool {
 
 func (s *ssut) fromSlice(items []item, ord order) bool {
 	c := s.c
-	c.Logf("S := FromSlice(%v, %s)", items, ord.name)
+	c.Logf("S := FromSlice(%v, %s)", iv(items), ord.name)
 	if !guard(c, "FromSlice", func() { ns := heapz.FromSlice(items, ord.less); s.s = &ns }) {
 		return false
 	}
@@ -93,41 +93,42 @@ func (s *ssut) fromSlice(items []item, ord order) bool {
 }
 
 // check: Len, the multiset in Values, and the heap order of Values.
-func (s *ssut) check(after string) bool {
+func (s *ssut) check(format string, a ...any) bool {
 	c := s.c
 	if c.Failed() {
 		return false
 	}
+	after := func() string { return fmt.Sprintf(format, a...) }
 	vals := s.s.Values
 	ln := -1
 	if !guard(c, "Len", func() { ln = s.s.Len() }) {
 		return false
 	}
 	if ln != s.n || len(vals) != s.n {
-		c.Failf("slice-len", "after %s: Len() = %d, len(Values) = %d, the multiset model has %d elements", after, ln, len(vals), s.n)
+		c.Failf("slice-len", "after %s: Len() = %d, len(Values) = %d, the multiset model has %d elements", after(), ln, len(vals), s.n)
 		return false
 	}
 	s.tick++
 	for i, v := range vals {
 		if v.ID < 0 || v.ID >= len(s.key) {
-			c.Failf("slice-unknown-element", "after %s: Values[%d] = %v was never put into the heap (Values %v)", after, i, v, vals)
+			c.Failf("slice-unknown-element", "after %s: Values[%d] = %v was never put into the heap (Values %v)", after(), i, v, iv(vals))
 			return false
 		}
 		if !s.in[v.ID] {
-			c.Failf("slice-not-member", "after %s: Values[%d] = %v is not in the multiset model (an element came back / was not removed; Values %v)", after, i, v, vals)
+			c.Failf("slice-not-member", "after %s: Values[%d] = %v is not in the multiset model (an element came back / was not removed; Values %v)", after(), i, v, iv(vals))
 			return false
 		}
 		if s.seen[v.ID] == s.tick {
-			c.Failf("slice-duplicate", "after %s: element %v appears twice in Values %v (another element was lost)", after, v, vals)
+			c.Failf("slice-duplicate", "after %s: element %v appears twice in Values %v (another element was lost)", after(), v, iv(vals))
 			return false
 		}
 		s.seen[v.ID] = s.tick
 		if v.K != s.key[v.ID] {
-			c.Failf("slice-value", "after %s: Values[%d] = %v but the model has key %d for that element", after, i, v, s.key[v.ID])
+			c.Failf("slice-value", "after %s: Values[%d] = %v but the model has key %d for that element", after(), i, v, s.key[v.ID])
 			return false
 		}
 		if i > 0 && s.ord.less(v, vals[(i-1)/2]) {
-			c.Failf("slice-order", "after %s: Values[%d] = %v precedes its parent Values[%d] = %v (order %s): Values %v violates the heap order", after, i, v, (i-1)/2, vals[(i-1)/2], s.ord.name, vals)
+			c.Failf("slice-order", "after %s: Values[%d] = %v precedes its parent Values[%d] = %v (order %s): Values %v violates the heap order", after(), i, v, (i-1)/2, vals[(i-1)/2], s.ord.name, iv(vals))
 			return false
 		}
 	}
@@ -142,12 +143,12 @@ func (s *ssut) push(key int) bool {
 	if !guard(c, "Slice.Push", func() { s.s.Push(it) }) {
 		return false
 	}
-	c.Logf("S.Push(%v) -> Values %v", it, s.s.Values)
+	c.Logf("S.Push(%v) -> Values %v", it, iv(s.s.Values))
 	s.add(it)
 	s.muts++
 	c.Add(s.pfx+"push", 1)
-	c.Max("slice/max_len", int64(s.n))
-	return s.check(fmt.Sprintf("Push(%v)", it))
+	c.Max(s.pfx+"max_len", int64(s.n))
+	return s.check("Push(%v)", it)
 }
 
 // minOK: x (already taken out of Values, or the Peek result) must not be
@@ -159,7 +160,7 @@ func (s *ssut) minOK(x item, op string) bool {
 			continue
 		}
 		if s.ord.less(v, x) {
-			s.c.Failf("slice-"+op+"-not-min", "%s() returned %v but Values[%d] = %v precedes it (order %s, Values %v)", op, x, i, v, s.ord.name, s.s.Values)
+			s.c.Failf("slice-"+op+"-not-min", "%s() returned %v but Values[%d] = %v precedes it (order %s, Values %v)", op, x, i, v, s.ord.name, iv(s.s.Values))
 			return false
 		}
 		if !s.ord.less(x, v) {
@@ -192,7 +193,7 @@ func (s *ssut) pop() bool {
 	if !guard(c, "Slice.Pop", func() { x, ok = s.s.Pop() }) {
 		return false
 	}
-	c.Logf("S.Pop() -> %v, %v; Values %v", x, ok, s.s.Values)
+	c.Logf("S.Pop() -> %v, %v; Values %v", x, ok, iv(s.s.Values))
 	if s.n == 0 {
 		if ok {
 			c.Failf("slice-pop-empty", "Pop() on an empty heap returned (%v, true)", x)
@@ -278,7 +279,7 @@ func (s *ssut) remove(i int) bool {
 	if !guard(c, "Slice.Remove", func() { x, ok = s.s.Remove(i) }) {
 		return false
 	}
-	c.Logf("S.Remove(%d) on %v -> %v, %v; Values %v", i, before, x, ok, s.s.Values)
+	c.Logf("S.Remove(%d) on %v -> %v, %v; Values %v", i, iv(before), x, ok, iv(s.s.Values))
 	inRange := i >= 0 && i < len(before)
 	if ok != inRange {
 		c.Failf("slice-remove-ok", "Remove(%d) on a heap of %d elements returned ok=%v", i, len(before), ok)
@@ -290,16 +291,16 @@ func (s *ssut) remove(i int) bool {
 		if sameItems(before, s.s.Values) {
 			c.Add(s.pfx+"remove_out_of_range_untouched", 1)
 		}
-		return s.check(fmt.Sprintf("Remove(%d) out of range", i))
+		return s.check("Remove(%d) out of range", i)
 	}
 	if x != before[i] {
-		c.Failf("slice-remove-wrong", "Remove(%d) on Values %v returned %v, the element at index %d is %v", i, before, x, i, before[i])
+		c.Failf("slice-remove-wrong", "Remove(%d) on Values %v returned %v, the element at index %d is %v", i, iv(before), x, i, before[i])
 		return false
 	}
 	s.del(x)
 	s.muts++
 	c.Add(s.pfx+"remove_in_range", 1)
-	if !s.check(fmt.Sprintf("Remove(%d) on %v", i, before)) {
+	if !s.check("Remove(%d) on %v", i, iv(before)) {
 		return false
 	}
 	// coverage: where did the displaced last element go?
@@ -342,17 +343,17 @@ func (s *ssut) fix(i, newKey int) bool {
 	if !guard(c, "Slice.Fix", func() { s.s.Fix(i) }) {
 		return false
 	}
-	c.Logf("S.Fix(%d) with Values %v -> Values %v", i, before, s.s.Values)
+	c.Logf("S.Fix(%d) with Values %v -> Values %v", i, iv(before), iv(s.s.Values))
 	if !inRange {
 		c.Add(s.pfx+"fix_out_of_range", 1)
 		if sameItems(before, s.s.Values) {
 			c.Add(s.pfx+"fix_out_of_range_untouched", 1)
 		}
-		return s.check(fmt.Sprintf("Fix(%d) out of range", i))
+		return s.check("Fix(%d) out of range", i)
 	}
 	s.muts++
 	c.Add(s.pfx+"fix_in_range", 1)
-	if !s.check(fmt.Sprintf("Values[%d].K = %d; Fix(%d) on %v", i, newKey, i, before)) {
+	if !s.check("Values[%d].K = %d; Fix(%d) on %v", i, newKey, i, iv(before)) {
 		return false
 	}
 	switch p := posOf(s.s.Values, id); {
@@ -387,13 +388,13 @@ func (s *ssut) popAll(k int) bool {
 	}) {
 		return false
 	}
-	c.Logf("S.PopAll() stop-after=%d -> %v; Values %v", k, got, s.s.Values)
+	c.Logf("S.PopAll() stop-after=%d -> %v; Values %v", k, iv(got), iv(s.s.Values))
 	want := n0
 	if k >= 0 && k < n0 {
 		want = k
 	}
 	if len(got) != want {
-		c.Failf("slice-popall-count", "PopAll() on %d elements, consumer stops after %d: yielded %d values %v", n0, k, len(got), got)
+		c.Failf("slice-popall-count", "PopAll() on %d elements, consumer stops after %d: yielded %d values %v", n0, k, len(got), iv(got))
 		return false
 	}
 	for _, v := range got {
@@ -410,7 +411,7 @@ func (s *ssut) popAll(k int) bool {
 	for i := 1; i < len(got); i++ {
 		for j := 0; j < i; j++ {
 			if s.ord.less(got[i], got[j]) {
-				c.Failf("slice-popall-order", "PopAll() yielded %v: position %d (%v) precedes position %d (%v) under order %s — not sorted", got, i, got[i], j, got[j], s.ord.name)
+				c.Failf("slice-popall-order", "PopAll() yielded %v: position %d (%v) precedes position %d (%v) under order %s — not sorted", iv(got), i, got[i], j, got[j], s.ord.name)
 				return false
 			}
 		}
@@ -457,15 +458,25 @@ func boundaryIndex(rng *ev.Rand, n int) int {
 	}
 }
 
-func sliceCase(c *ev.Case) {
+func sliceCase(c *ev.Case) { sliceRun(c, false) }
+
+func sliceDeepCase(c *ev.Case) { sliceRun(c, true) }
+
+func sliceRun(c *ev.Case, deep bool) {
 	rng := c.Rng
 	s := newSsut(c)
 	g := newKeygen(rng)
 	ord := pickOrder(rng)
-	if !s.build(initialKeys(rng, g, rng.Pick(0, 1, 2, 3, 6, 7, 8, 12, 15, 16, 31), ord), ord, rng.Chance(1, 4)) {
+	size := rng.Pick(0, 1, 2, 3, 6, 7, 8, 12, 15, 16, 31)
+	nops := rng.Pick(20, 50, 50, 50, 120)
+	if deep {
+		s.pfx = "deep/s_"
+		size = rng.Pick(255, 256, 600, 1023, 1024, 2100)
+		nops = rng.Pick(1000, 2500)
+	}
+	if !s.build(initialKeys(rng, g, size, ord), ord, rng.Chance(1, 4)) {
 		return
 	}
-	nops := rng.Pick(20, 50, 50, 50, 120)
 	phase := 0
 	for i := 0; i < nops; i++ {
 		if i%25 == 0 {
@@ -492,7 +503,11 @@ func sliceCase(c *ev.Case) {
 			}
 			ok = s.fix(idx, newKeyFor(rng, g, old))
 		case p < pushP+popP+50:
-			ok = s.popAll(rng.Intn(s.n + 1))
+			k := rng.Intn(s.n + 1)
+			if deep && k > 24 {
+				k = rng.Intn(25)
+			}
+			ok = s.popAll(k)
 		case p < pushP+popP+52:
 			// re-heapify the same elements from an arbitrary arrangement, maybe under another order
 			vals := append([]item(nil), s.s.Values...)
@@ -531,6 +546,6 @@ func sliceCase(c *ev.Case) {
 		c.Distinct(s.hash)
 	}
 	if c.WantSample() {
-		c.Sample(fmt.Sprintf("slice: order %s, key mode %d, %d ops, %d elements created, peak length %d, Values checked for order and multiset after every call, drained", ord.name, g.mode, nops, len(s.key), s.peak))
+		c.Sample(fmt.Sprintf("slice (deep=%v): order %s, key mode %d, %d ops, %d elements created, peak length %d, Values checked for order and multiset after every call, drained", deep, ord.name, g.mode, nops, len(s.key), s.peak))
 	}
 }
